@@ -611,11 +611,11 @@ class Run(object):
                 if is_dup(para):
                     out.probe("sort_with_duplicates")
                 call = (lambda: h.sort_fields()) if skey is None else \
-                    (lambda: h.sort_fields(key=f))
+                    (lambda: h.sort_fields(key=lambda name_: f(name_)))
                 if not hasattr(h, "sort_fields"):
                     h = self.handle(pi, "held")
                     call = (lambda: h.sort_fields()) if skey is None else \
-                        (lambda: h.sort_fields(key=f))
+                        (lambda: h.sort_fields(key=lambda name_: f(name_)))
             else:
                 return False
             if op in ORDER_OPS and not hasattr(h, op):
